@@ -255,9 +255,11 @@ def run(ctx):
     ctx.need(instr_e[0] == "local", "named local holding the fetched word")
     il = instr_e[1]
     fdefs = rl.defs().get(il, [])
-    ctx.need(len(fdefs) == 1 and fdefs[0][0] == "stmt", "single fetch statement")
+    # the word is read by indexing the memory, or through the accessor RunState::mem(addr) (= self.mem[addr])
+    via_accessor = len(fdefs) == 1 and fdefs[0][0] == "call" and callee_of(fdefs[0][3]) == RT + "RunState::mem"
+    ctx.need(len(fdefs) == 1 and (fdefs[0][0] == "stmt" or via_accessor), "single fetch statement")
     fetch_b = fdefs[0][1]
-    fe = rl.rvalue_expr(fdefs[0][3]["r"], 10)
+    fe = ("call", RT + "RunState::mem", tuple(rl.expr(a_, 10) for a_ in fdefs[0][3]["args"])) if via_accessor else rl.rvalue_expr(fdefs[0][3]["r"], 10)
     ok = "mem" in expr_str(fe) and "pc" in expr_str(fe)
     ctx.instance(1)
     ctx.oblig(ok, {"fetch": expr_str(fe, 80)}, "mem[pc]")
